@@ -174,6 +174,12 @@ Proof.
   auto.
 Qed.
 
+(* take(n) with a count that outlasts the run: the first m <= n items are the first m frames of the signal whatever n
+   is (2^32, usize::MAX ...), n - m are left (what size_hint / len report), the signal has been advanced exactly m times *)
+Theorem c05_take_beyond_run : forall m n (s : sig), m <= n ->
+  collect_take m (n, s) = (map (stream s) (seq 0 m), (n - m, after m s)).
+Proof. exact (take_prefix F Sm SS FS eqm nch of_samples fmap f_add f_mul f_scale f_offset to_signed of_signed ss_ltb ss_neg). Qed.
+
 End Statement.
 
 (* take(n) of the executable model counts in Z (so that take(2^32), take(usize::MAX) run as they are): one call of its
@@ -201,4 +207,5 @@ Print Assumptions c05_interleaved_count.
 Print Assumptions c05_lift.
 Print Assumptions c05_lift_general.
 Print Assumptions c05_delay_beyond_run_live.
+Print Assumptions c05_take_beyond_run.
 Print Assumptions c05_take_counter.
